@@ -14,7 +14,35 @@ def main():
     ap.add_argument("--replay")
     a = ap.parse_args()
     seed = int(os.environ.get("VERIF_SEED", "0") or 0)
-    sys.exit(run_check(a.pid.upper(), a.tier, seed, a.replay))
+
+    # safety net: a defective tree must not be able to hang the check (a hang in the code under test is reported by the
+    # property's own harness; this cap only guarantees termination). Exit status 2 = timeout, no verdict.
+    import threading
+
+    cap = float(os.environ.get("VERIF_WALL_CAP_S", "0") or 0) or (2700 if a.tier == "quick" else 3 * 3600)
+
+    def _expire():
+        print(f"TIMEOUT property={a.pid.upper()} (wall cap {int(cap)} s)", flush=True)
+        try:
+            import psutil
+
+            for c in psutil.Process().children(recursive=True):
+                try:
+                    c.kill()
+                except Exception:  # noqa: BLE001
+                    pass
+        finally:
+            os._exit(2)
+
+    t = threading.Timer(cap, _expire)
+    t.daemon = True
+    t.start()
+    rc = run_check(a.pid.upper(), a.tier, seed, a.replay)
+    t.cancel()
+    sys.stdout.flush()
+    sys.stderr.flush()
+    # leave without joining non-daemon threads the code under test may have left blocked
+    os._exit(rc)
 
 
 main()
